@@ -145,6 +145,7 @@ Record design := mkD {
   d_depth : nat;             (* number of dummy blocks on _block_stack while those contexts are converted *)
   d_clk_ok : bool;           (* a std.SequentialContext context completes PrepareAst (_enter/_exit_context) *)
   d_clk_fail : bool;         (* the PrepareAst rejection happens inside a std.SequentialContext context *)
+  d_ctx_clk : bool;          (* the context that executes d_ctx_pfx is a std.SequentialContext context *)
   d_needs_ctx : bool;        (* a context NOT created from a Clock asks SequentialContext.current() *)
   d_coro : bool;             (* a coroutine reaches IR generation (StatemachineContext.enter) before any IR failure *)
   d_in_call : bool;          (* the statemachine / the IR rejection is nested in a function call (out.Call) *)
@@ -207,9 +208,14 @@ Definition leak_arch (fx : bool) (d : design) (g : gstate) : gstate :=
   if fx then g else set_stale (d_id d :: g_stale g) g.
 
 (** the std.SequentialContext wrapper: _enter_context ... fn() ... _exit_context (std/_context.py l.866-888) *)
-Definition cur_after (fx : bool) (d : design) (failed : bool) (cur : bool) : bool :=
-  if failed && d_clk_fail d then negb fx
+Definition cur_after (fx : bool) (d : design) (failed crashed : bool) (cur : bool) : bool :=
+  if crashed && d_ctx_clk d then negb fx
+  else if failed && negb crashed && d_clk_fail d then negb fx
   else if d_clk_ok d then false else cur.
+
+(** coded: the dummy block the prefix table is attached to stays at the bottom of _block_stack *)
+Definition stale_promote (p : pfx) : pfx :=
+  match p_pe p with PCur => mkPfx (p_scope p) PStale (p_pt p) | _ => p end.
 
 (** IR generation of the contexts (runs after ConvertPythonInstance.__exit__) *)
 Definition ir_stage (fx : bool) (d : design) (names : list pstr) (g : gstate) : gstate * outcome :=
@@ -262,12 +268,12 @@ Definition compile_gen (fx : bool) (d : design) (g : gstate) : gstate * outcome 
     (* coded: the dummy blocks stay on _block_stack, `with prefix:` / `with StdExceptionHandler(..):` are
        never left (their __exit__ is only called by the code generated for the normal path, _prepare_ast.py
        l.2193-2209), _exit_context is never reached *)
-    let g1 := set_cur (cur_after fx d true (g_cur g))
-                (set_pfx (demote (if fx then popped else pc))
+    let g1 := set_cur (cur_after fx d true crashed (g_cur g))
+                (set_pfx (if fx then demote popped else stale_promote pc)
                    (if fx then g else set_eh (g_eh g + d_eh d) (set_bs (g_bs g + d_depth d) g))) in
     (g1, if crashed then Crashed SPrep else Rejected SPrep)
   else
-    ir_stage fx d names (set_cur (cur_after fx d false (g_cur g)) (set_pfx (demote popped) g))
+    ir_stage fx d names (set_cur (cur_after fx d false false (g_cur g)) (set_pfx (demote popped) g))
   end
   end.
 
